@@ -203,3 +203,20 @@ Example z_crashed_nontrivial :
   let p0 := transfer_prog N zH 1 (fun n => n + 100) true 0 z_qs z_files z_dir z_w0 in
   w_tmps (run N 1 (firstn 10 p0) z_w0) = [(0, 102)] /\ length p0 = 21%nat.
 Proof. vm_compute. split; reflexivity. Qed.
+
+(* ---- the refutation witness again, with per-call verification (save(..., verify=True)): the same
+   kill point, the re-run's pre-add check drops the leftover and the store converges ---- *)
+Definition xv_prog := save_gen oid xH xE (fun b => b) true false 0 x_files [].
+Definition xv_crashed := crash oid (run oid xE (firstn 2 (xv_prog w_empty)) w_empty).
+Example xv_crashed_is_leftover :
+  enc_world xv_crashed = VL [VL [VL [VB [2]; VB [1]; VN 0]]; VL []; VL []].
+Proof. vm_compute. reflexivity. Qed.
+Example xv_rerun_valid : valid_trace oid xH (xK []) xE (xv_prog xv_crashed) xv_crashed = true.
+Proof. vm_compute. reflexivity. Qed.
+Example xv_rerun_drops_then_copies :
+  steps_eqb (firstn 2 (xv_prog xv_crashed)) [StateSave [([2], [1])]; Remove [2]] = true.
+Proof. vm_compute. reflexivity. Qed.
+Example xv_rerun_result :
+  enc_objs (run oid xE (xv_prog xv_crashed) xv_crashed) = enc_objs (run oid xE (xv_prog w_empty) w_empty) /\
+  enc_objs (run oid xE (xv_prog xv_crashed) xv_crashed) = VL [VL [VB [2]; VB [2]; VN 1]].
+Proof. vm_compute. split; reflexivity. Qed.
